@@ -10,6 +10,8 @@ Regenerated on every run of the C16 check.  What is taken from the source:
   sha1.h     reset words, left_rotate, byte->word lines, the schedule expression, the four
              (bound, f, k) arms, the temp/rotate expressions, the block size, the 0x80 byte, the
              padding thresholds and the eight length-byte expressions of get_digest
+  aes.cpp    (OpenSSL provider) key/IV/block sizes, the size tests of set_key/set_iv, check(), and that
+             encrypt/decrypt call AES_cbc_encrypt with iv_enc_/iv_dec_ respectively
   crypto.cpp the digest->bytes expressions of sha1_digets::readout, digest/block sizes of the two
              bundled digests, hmac::init (key test, ipad/opad bytes), key::set_hex / from_hex
 Control flow (order of statements, loops, buffer hand-over) is written by hand in Model.lean and
@@ -345,17 +347,45 @@ def gen_hmac_key(crypto, w):
     w("")
 
 
+def gen_cbc(aes, w):
+    m = need(re.search(r"#elif\s+defined\s+CPPCMS_HAVE_OPENSSL(.*?)typedef\s+openssl_aes_encryptor\s+aes_encryption_provider\s*;", aes, re.S), "aes.cpp: OpenSSL provider")
+    cls = m.group(1)
+    ks = need(re.search(r"unsigned\s+key_size\(\)\s*const\s*\{\s*return\s+([^;]+);\s*\}", cls), "cbc key_size").group(1)
+    bs = need(re.search(r"unsigned\s+block_size\(\)\s*const\s*\{\s*return\s+(\d+)\s*;\s*\}", cls), "cbc block_size").group(1)
+    body = function_body(cls, r"void\s+set_key\s*\(\s*key\s+const\s*&\s*k\s*\)\s*\{")
+    need(re.search(r"if\s*\(\s*k\.size\(\)\s*!=\s*key_size\(\)\s*\)\s*throw\s+booster::invalid_argument\(", body), "cbc set_key size test")
+    body = function_body(cls, r"void\s+set_iv\s*\(\s*void\s+const\s*\*\s*ptr\s*,\s*size_t\s+size\s*\)\s*\{")
+    need(re.search(r"if\s*\(\s*size\s*!=\s*sizeof\(iv_enc_\)\s*\)\s*throw\s+booster::invalid_argument\(", body), "cbc set_iv size test")
+    need(re.search(r"memcpy\(iv_enc_,ptr,size\)\s*;\s*memcpy\(iv_dec_,ptr,size\)\s*;\s*iv_initialized_\s*=\s*true\s*;", body), "cbc set_iv copies")
+    iv = need(re.search(r"unsigned\s+char\s+iv_enc_\[(\d+)\]\s*;\s*unsigned\s+char\s+iv_dec_\[(\d+)\]\s*;", cls), "cbc iv arrays")
+    if iv.group(1) != iv.group(2):
+        raise Untranslatable("cbc iv arrays differ in size")
+    body = function_body(cls, r"void\s+check\s*\(\s*\)\s*\{")
+    need(re.fullmatch(r"\s*if\s*\(\s*key_\.size\(\)\s*==\s*0\s*\)\s*throw\s+booster::runtime_error\([^;]*without key[^;]*\)\s*;"
+                      r"\s*if\s*\(\s*!iv_initialized_\s*\)\s*throw\s+booster::runtime_error\([^;]*without initial vector[^;]*\)\s*;\s*", body), "cbc check()")
+    for fn, var, flag in (("encrypt", "iv_enc_", "AES_ENCRYPT"), ("decrypt", "iv_dec_", "AES_DECRYPT")):
+        body = function_body(cls, r"virtual\s+void\s+" + fn + r"\s*\(\s*void\s+const\s*\*\s*in\s*,\s*void\s*\*\s*out\s*,\s*unsigned\s+len\s*\)\s*\{")
+        need(re.match(r"\s*check\(\)\s*;", body), "cbc " + fn + " does not start with check()")
+        need(re.search(r"AES_cbc_encrypt\([^;]*" + var + r"\s*,\s*" + flag + r"\s*\)\s*;", body, re.S), "cbc " + fn + ": AES_cbc_encrypt with " + var)
+    w(f"def cbcKeySize (type_ : Nat) : Nat := {c_to_lean(ks)}")
+    w(f"def cbcBlockSize : Nat := {bs}")
+    w(f"def cbcIvSize : Nat := {iv.group(1)}")
+    w("")
+
+
 def main(repo, lean):
     md5 = strip_c_comments(open(os.path.join(repo, "src/md5.cpp")).read())
     sha1 = strip_c_comments(open(os.path.join(repo, "private/sha1.h")).read())
     crypto = strip_c_comments(open(os.path.join(repo, "src/crypto.cpp")).read())
+    aes = strip_c_comments(open(os.path.join(repo, "src/aes.cpp")).read())
     o = []
     w = o.append
-    w("/- GENERATED by translate/c16.py from src/md5.cpp, private/sha1.h, src/crypto.cpp. Do not edit. -/")
+    w("/- GENERATED by translate/c16.py from src/md5.cpp, private/sha1.h, src/crypto.cpp, src/aes.cpp. Do not edit. -/")
     w("set_option linter.unusedVariables false\nnamespace Cppcms.C16.Gen\n")
     gen_md5(md5, w)
     gen_sha1(sha1, crypto, w)
     gen_hmac_key(crypto, w)
+    gen_cbc(aes, w)
     w("end Cppcms.C16.Gen")
     path = os.path.join(lean, "Cppcms", "C16", "Gen.lean")
     changed = write_if_changed(path, "\n".join(o) + "\n")
